@@ -27,7 +27,9 @@ import pipeline
 from pipeline import close
 
 GENERATOR_NAMES = ["dt", "t", "time", "states", "parameters", "values", "shape", "missing_variables", "numpy", "jax", "len",
-                   "dx_dt_linearized", "dz_dt_linearized", "_values_0", "math", "state_index", "rhs", "monitor_values"]
+                   "dx_dt_linearized", "dz_dt_linearized", "_values_0", "math", "state_index", "rhs", "monitor_values",
+                   # the jax backend names its output slots _values_<i>: as many as states in rhs / schemes, more in monitor_values
+                   "_values_2", "_values_3", "_values_4", "_values_5", "_values_6", "_values_12"]
 PY_NAMES = ["lambda", "for", "if", "class", "def", "None", "True", "import", "is", "in", "not", "or", "and", "print", "float",
             "int", "abs", "max", "min", "sum", "list", "dict", "range", "map", "type", "id", "self", "yield", "async", "match"]
 C_NAMES = ["double", "const", "while", "return", "register", "struct", "void", "char", "long", "short", "unsigned", "static",
@@ -86,6 +88,10 @@ def observe(text, backend, ident_map, ru=False):
         st = [stv.get(canon(s) if canon(s) in stv else "x", 0.75) if canon(s) not in stv else stv[canon(s)] for s in ss]
         st = [stv[canon(s)] if canon(s) in stv else 0.75 for s in ss]
         ps = [pav[canon(p)] if canon(p) in pav else 1.5 for p in pn]
+        # a second point where the quantities have other signs than at the first (a captured name often carries a value of
+        # the same sign as the right one)
+        stv2 = {"x": 4.0, "z": -5.5, "w": 0.5, "ID": -0.625}
+        st2 = [stv2[canon(s)] if canon(s) in stv2 else 4.0 for s in ss]
         stiff = [s for s in ss if canon(s) in ("ID", "x", "z")]   # chosen by role, not by slot order
         out = {}
         if backend in ("numpy", "jax"):
@@ -101,6 +107,8 @@ def observe(text, backend, ident_map, ru=False):
             with np.errstate(all="ignore"):
                 out["rhs"] = dict(zip([canon(s) for s in ss], map(float, impl.call_numpy(ns["rhs"], fns["rhs"]["args"], 0.25, st, ps))))
                 out["monitor_values"] = dict(zip([canon(n) for n in order], map(float, impl.call_numpy(ns["monitor_values"], fns["monitor_values"]["args"], 0.25, st, ps))))
+                out["rhs@2"] = dict(zip([canon(s) for s in ss], map(float, impl.call_numpy(ns["rhs"], fns["rhs"]["args"], 0.25, st2, ps))))
+                out["monitor_values@2"] = dict(zip([canon(n) for n in order], map(float, impl.call_numpy(ns["monitor_values"], fns["monitor_values"]["args"], 0.25, st2, ps))))
                 for sch in impl.ALL_SCHEMES:
                     out[sch] = dict(zip([canon(s) for s in ss], map(float, impl.call_numpy(ns[sch], fns[sch]["args"], 0.25, st, ps, dt=0.125))))
                 out["init_states"] = dict(zip([canon(s) for s in ss], map(float, ns["init_state_values"]())))
@@ -111,6 +119,8 @@ def observe(text, backend, ident_map, ru=False):
             fns = impl.export_functions(code)
             out["rhs"] = dict(zip([canon(s) for s in ss], map(float, cback.call_jax(ns["rhs"], fns["rhs"]["args"], 0.25, st, ps))))
             out["monitor_values"] = dict(zip([canon(n) for n in order], map(float, cback.call_jax(ns["monitor_values"], fns["monitor_values"]["args"], 0.25, st, ps))))
+            out["rhs@2"] = dict(zip([canon(s) for s in ss], map(float, cback.call_jax(ns["rhs"], fns["rhs"]["args"], 0.25, st2, ps))))
+            out["monitor_values@2"] = dict(zip([canon(n) for n in order], map(float, cback.call_jax(ns["monitor_values"], fns["monitor_values"]["args"], 0.25, st2, ps))))
             out["explicit_euler"] = dict(zip([canon(s) for s in ss], map(float, cback.call_jax(ns["explicit_euler"], fns["explicit_euler"]["args"], 0.25, st, ps, dt=0.125))))
         else:
             cm = cback.CModule(code)
@@ -157,7 +167,7 @@ def main(argv=None):
             h = hash((ident, role, a.seed))
             if a.tier != "quick" or h % 4 == 0 or ident in ("double", "const", "restrict", "values", "states"):
                 backends.append("C")
-            if a.tier != "quick" or h % 5 == 1 or ident in ("jax", "numpy", "lambda"):
+            if a.tier != "quick" or h % 5 == 1 or ident in ("jax", "numpy", "lambda") or ident.startswith("_values_"):
                 backends.append("jax")
             for be in backends:
                 def one():
